@@ -57,6 +57,7 @@ type rangeState struct {
 	x    *Val
 	typ  types.Type
 	head *ssa.BasicBlock
+	key  string // state key of the ghost set of keys visited so far (map ranges)
 }
 
 func (fr *Frame) unsupported(pos token.Pos, format string, a ...interface{}) {
@@ -178,8 +179,9 @@ func (fr *Frame) val(v ssa.Value) *Val {
 		return c.constVal(k)
 	case *ssa.Global:
 		name := smtName("glob_" + k.Pkg.Pkg.Path() + "." + k.Name())
-		if !c.sc.declSeen[name] {
-			c.sc.declareConst(name, SV)
+		c.sc.declareConst(name, SV)
+		if !c.sc.declSeen["nn:"+name] {
+			c.sc.declSeen["nn:"+name] = true
 			c.sc.assert(mk(SBool, "(and (not (= %s null)) (< (birth %s) 0))", name, name))
 		}
 		x := scalar(&Term{name, SV}, k.Type())
@@ -187,8 +189,9 @@ func (fr *Frame) val(v ssa.Value) *Val {
 		return x
 	case *ssa.Function:
 		name := smtName("func_" + k.String())
-		if !c.sc.declSeen[name] {
-			c.sc.declareConst(name, SV)
+		c.sc.declareConst(name, SV)
+		if !c.sc.declSeen["nn:"+name] {
+			c.sc.declSeen["nn:"+name] = true
 			c.sc.assert(mk(SBool, "(and (not (= %s null)) (< (birth %s) 0))", name, name))
 		}
 		x := &Val{T: &Term{name, SV}, Typ: k.Type(), Clo: &Closure{Fn: k}}
@@ -707,7 +710,14 @@ func (fr *Frame) execInstr(in ssa.Instruction, st *State, reach *Term) (terminat
 		fr.execSlice(i, st, reach)
 	case *ssa.Range:
 		fr.guardCheck(i, fr.val(i.X), false, st, reach)
-		fr.rangeIt[i] = &rangeState{x: fr.val(i.X), typ: i.X.Type()}
+		rs := &rangeState{x: fr.val(i.X), typ: i.X.Type()}
+		if mi, err := c.mapInfo(i.X.Type()); err == nil {
+			rs.key = fmt.Sprintf("R:%s:%s:%s", fr.id, fr.fn.Name(), i.Name())
+			vs := ArrSort(mi.ksort, SBool)
+			c.key(rs.key, vs)
+			c.set(st, rs.key, mk(vs, "((as const %s) false)", vs))
+		}
+		fr.rangeIt[i] = rs
 		fr.setVal(i, &Val{Typ: i.Type(), T: c.sc.freshConst("iter", SV)})
 	case *ssa.Next:
 		fr.execNext(i, st, reach)
@@ -1179,13 +1189,16 @@ func (fr *Frame) execNext(i *ssa.Next, st *State, reach *Term) {
 		fr.setVal(i, c.freshVal("next", i.Type()))
 		return
 	}
-	// nondeterministic next key: ok => key in dom (of the map as it is now)
+	// nondeterministic next key: an unvisited key of the map as it is now; exhausted when every key has been visited
 	m := mt.Underlying().(*types.Map)
 	ok := c.sc.freshConst(fr.fn.Name()+"_rng_ok", SBool)
 	k := c.sc.freshConst(fr.fn.Name()+"_rng_k", mi.ksort)
 	dom := tSelect(c.get(st, mi.dom, mi.domSort), rs.x.T)
-	c.sc.assert(tImp(tAnd(reach, ok), tSelect(dom, k)))
-	c.sc.assert(tImp(tAnd(reach, tNot(tEq(rs.x.T, tNull)), tNot(ok)), tTrue))
+	vs := ArrSort(mi.ksort, SBool)
+	vis := c.get(st, rs.key, vs)
+	c.sc.assert(tImp(tAnd(reach, ok), tAnd(tNot(tEq(rs.x.T, tNull)), tSelect(dom, k), tNot(tSelect(vis, k)))))
+	c.sc.assert(tImp(tAnd(reach, tNot(ok), tNot(tEq(rs.x.T, tNull))), mk(SBool, "(forall ((x %s)) (! (=> (select %s x) (select %s x)) :pattern ((select %s x))))", mi.ksort, dom.S, vis.S, dom.S)))
+	c.set(st, rs.key, tIte(ok, tStore(vis, k, tTrue), vis))
 	v := buildVal(m.Elem(), func(l leaf) *Term {
 		key, ks := c.mapValKey(mt, l)
 		return fr.named(i, tSelect(tSelect(c.get(st, key, ks), rs.x.T), k))
